@@ -120,11 +120,14 @@ def spinn_ob(kind, d, r, m, B, bare=False):
         fac = _Factory("f")
         u = create_SPINN(jax.random.PRNGKey(0), d, r, ((fac, 1, r * m),), _eqt(kind), m)
         assert fac.count == d
-        def fn(th, t, x):
+        def fn(th, t, x, stale):
             nn = jax.tree_util.tree_map(lambda leaf: th, u.params)
+            # `_SPINN.layers` is a left-over of the construction loop (a second copy of the last per-dimension network):
+            # f_d is `separated_mlp[d]`; the copy gets other values and must not be read
+            nn = eqx.tree_at(lambda z: z.layers, nn, jax.tree_util.tree_map(lambda leaf: stale, nn.layers))
             params = nn if bare else Params(nn_params=nn, eq_params={})
             return u(x, params) if kind == "statio" else u(t, x, params)
-        def spec(th, t, x, wrong=False):
+        def spec(th, t, x, stale, wrong=False):
             def coord(i, j):      # value of coordinate j for batch index i ; time first
                 if kind == "nonstatio":
                     return t[i, 0] if j == 0 else x[i, j - 1]
@@ -146,7 +149,7 @@ def spinn_ob(kind, d, r, m, B, bare=False):
             return arr(entry, (B,) * d + (m,))
         dx = d - 1 if kind == "nonstatio" else d
         return dict(fn=fn, spec=spec, canary=lambda *z: spec(*z, wrong=True),
-                    inputs=[Inp("th", (1,)), Inp("t", (B, 1)), Inp("x", (B, max(dx, 1)))])
+                    inputs=[Inp("th", (1,)), Inp("t", (B, 1)), Inp("x", (B, max(dx, 1))), Inp("stale", (1,))])
     return EqObligation(f"C10/SPINN.__call__/ensures[{kind},d={d},r={r},m={m},B={B}{',bare_nn_params' if bare else ''}]", build,
                         ["jinns.utils._spinn:SPINN.__call__", "jinns.utils._spinn:SPINN.eval_nn",
                          "jinns.utils._spinn:_SPINN.__call__", "jinns.utils._spinn:create_SPINN"])
@@ -208,7 +211,7 @@ def hyper_ob(kind, d, m, hp_shapes, transforms, order=None, tshape=(1,)):
                                 "jinns.utils._hyperpinn:_get_param_nb", PM + "PINN.__call__"])
 
 
-def create_hyper_ob(kind, d, m, hyper_arch, shared=False):
+def create_hyper_ob(kind, d, m, hyper_arch, shared=False, slices_=None):
     """create_HYPERPINN: the hyper-network it builds maps the `hypernet_input_size` flattened hyper-parameters to exactly
     as many numbers as the inner network has parameters (first / last layer sizes rewritten, the rest of the given or
     copied architecture kept), and the wrapper it returns evaluates as HYPERPINN.eval_nn promises.
@@ -219,7 +222,7 @@ def create_hyper_ob(kind, d, m, hyper_arch, shared=False):
     keys = ["a", "b"]
     hp_shapes = [(), (2,)]
     nin = 3
-    slices = (jnp.s_[0:1], jnp.s_[-1]) if shared else None
+    slices = (slices_ or (jnp.s_[0:1], jnp.s_[-1])) if shared else None
     def build():
         from jinns.utils._hyperpinn import create_HYPERPINN
         sizes = [hid * din, hid, m * hid, m]
@@ -273,7 +276,8 @@ def create_hyper_ob(kind, d, m, hyper_arch, shared=False):
             return res_
         return dict(fn=fn, spec=spec, canary=lambda *z: spec(*z, wrong=True),
                     inputs=[Inp("th", (1,)), Inp("t", (1,)), Inp("x", (max(d, 1),)), Inp("a", ()), Inp("b", (2,))])
-    return EqObligation(f"C10/create_HYPERPINN/ensures[{kind},d={d},m={m},hyper_architecture={hyper_arch},shared_pinn_outputs={int(shared)}]",
+    stag = "" if slices_ is None else "," + "/".join(str(q) for q in slices_).replace(" ", "")
+    return EqObligation(f"C10/create_HYPERPINN/ensures[{kind},d={d},m={m},hyper_architecture={hyper_arch},shared_pinn_outputs={int(shared)}{stag}]",
                         build, ["jinns.utils._hyperpinn:create_HYPERPINN", "jinns.utils._hyperpinn:HYPERPINN.__post_init__",
                                 "jinns.utils._hyperpinn:HYPERPINN.eval_nn", "jinns.utils._hyperpinn:HYPERPINN._hyper_to_pinn",
                                 "jinns.utils._hyperpinn:_get_param_nb", PM + "_MLP.__post_init__", PM + "_MLP.__call__"])
@@ -286,6 +290,7 @@ def obligations(tier):
         if kind != "ODE" or tier == "thorough":
             obs.append(create_hyper_ob(kind, d, m_, "default"))
     obs.append(create_hyper_ob("statio", 1, 2, "opaque", shared=True))
+    obs.append(create_hyper_ob("statio", 1, 3, "opaque", shared=True, slices_=(jnp.s_[0], jnp.s_[1:3])))   # component 0 given as the integer 0
     for kind, d in (("ODE", 0), ("statio", 1), ("statio", 2), ("nonstatio", 1), ("nonstatio", 2)):
         tshapes = [(), (1,)] if kind == "ODE" else [(1,)]
         for tshape in tshapes:
@@ -301,6 +306,7 @@ def obligations(tier):
     obs.append(create_pinn_ob(False))
     obs.append(create_pinn_ob(True, (jnp.s_[0:2], jnp.s_[-1])))         # last component given as the integer -1
     obs.append(create_pinn_ob(True, (jnp.s_[1], jnp.s_[-2:])))
+    obs.append(create_pinn_ob(True, (jnp.s_[0], jnp.s_[1:3])))
     for kind in ("statio", "nonstatio"):
         for d in ((1, 2, 3) if kind == "statio" else (2, 3)):
             # B = 1: a grid with a single point per axis keeps all its axes
